@@ -161,11 +161,36 @@ Definition honest_serves (H : Z -> Z -> Z) (v : cview) (env : denv) (raws : list
                      good_idx env tfilt tm startH p (Z.of_nat i)) /\
     (forall d, startH = u32 (d * INTERVAL) -> cp_contradicts H d tc tm = false).
 
-Lemma resolve_honest_wins_eq H hard v env raws hint cps p tc tfilt bans res :
+(* the same, only at the start heights resolveConflict can ask for: the
+   beginning of an interval that the honest list covers *)
+(* where resolveConflict sees the first disagreement (after the lists that
+   contradict a hard-coded checkpoint are gone) *)
+Definition first_diff (hard : Z -> option Z) (v : cview) (cps : list (Z * list Z)) : sanity :=
+  check_sanity (remove_peers (List.map fst (List.filter (fun c : Z * list Z => peer_hard_bad hard (snd c)) cps)) cps) v.
+
+Definition honest_serves_lt (H : Z -> Z -> Z) (hard : Z -> option Z) (v : cview) (env : denv)
+           (raws : list rawresp) (cps : list (Z * list Z))
+           (p : Z) (tc : list Z) (tfilt : Z -> Z) : Prop :=
+  forall j : nat, (j < length tc)%nat -> first_diff hard v cps = SaneDiff (Z.of_nat j) ->
+    let startH := u32 (Z.of_nat j * INTERVAL) in
+    exists tm,
+    honest_in tm p (fst (get_headers v startH raws)) /\
+    (forall i : nat, (i < zn (snd (get_headers v startH raws)))%nat ->
+                     good_idx env tfilt tm startH p (Z.of_nat i)) /\
+    cp_contradicts H (Z.of_nat j) tc tm = false.
+
+Lemma honest_serves_lt_of H hard v env raws cps p tc tfilt :
+  honest_serves H v env raws p tc tfilt -> honest_serves_lt H hard v env raws cps p tc tfilt.
+Proof.
+  intros Hs j _ _. cbv zeta. destruct (Hs (u32 (Z.of_nat j * INTERVAL))) as (tm & Hh & Hg & Hc).
+  exists tm. split; [done|]. split; [done|]. by apply Hc.
+Qed.
+
+Lemma resolve_honest_wins_lt H hard v env raws hint cps p tc tfilt bans res :
   In (p, tc) cps -> (forall l, In (p, l) cps -> l = tc) ->
   peer_hard_bad hard tc = false ->
   (forall q l, In (q, l) cps -> (length l <= length tc)%nat) ->
-  honest_serves H v env raws p tc tfilt ->
+  honest_serves_lt H hard v env raws cps p tc tfilt ->
   resolve_conflict H hard v env raws hint cps = (bans, res) ->
   ~ In p bans /\
   (forall l, res = Some l -> forall (i : nat) x y, l !! i = Some x -> tc !! i = Some y -> x = y) /\
@@ -207,8 +232,7 @@ Proof.
       unfold zlen. lia. }
     rewrite (match_ne cps2) by (eapply In_ne; exact Hp2).
     set (startH := u32 (Z.of_nat j * INTERVAL)).
-    destruct (Hhon startH) as (tm & Hh & Hgood & Hcons).
-    specialize (Hcons (Z.of_nat j) eq_refl).
+    destruct (Hhon j Hjtc Es) as (tm & Hh & Hgood & Hcons). fold startH in Hh, Hgood.
     destruct (get_headers v startH raws) as [hs n] eqn:Eg. cbn [fst snd] in Hh, Hgood.
     destruct (negb (all_eq (List.map (fun c : Z * cfmsg => m_prev (snd c)) hs))).
     { intros [= <- <-]. split; [done|]. split; intros; discriminate. }
@@ -280,6 +304,21 @@ Proof.
     + intros [= <- <-]. split; [done|]. split; intros; discriminate.
     + intros [= <- <-]. split; [done|]. split; intros; discriminate.
   - intros [= <- <-]. split; [done|]. split; intros; discriminate.
+Qed.
+
+Lemma resolve_honest_wins_eq H hard v env raws hint cps p tc tfilt bans res :
+  In (p, tc) cps -> (forall l, In (p, l) cps -> l = tc) ->
+  peer_hard_bad hard tc = false ->
+  (forall q l, In (q, l) cps -> (length l <= length tc)%nat) ->
+  honest_serves H v env raws p tc tfilt ->
+  resolve_conflict H hard v env raws hint cps = (bans, res) ->
+  ~ In p bans /\
+  (forall l, res = Some l -> forall (i : nat) x y, l !! i = Some x -> tc !! i = Some y -> x = y) /\
+  (forall l, res = Some l -> forall q lq (i : nat) x y,
+      In (q, lq) cps -> lq !! i = Some x -> tc !! i = Some y -> x <> y -> In q bans).
+Proof.
+  intros Hp Huniq Hhard Hlen Hhon. apply (resolve_honest_wins_lt H hard v env raws hint cps p tc tfilt); try done.
+  by apply honest_serves_lt_of.
 Qed.
 
 Theorem resolve_honest_wins H hard v env raws hint cps p tc tfilt :
